@@ -95,7 +95,13 @@ RULE = ("stateful: one Cleaner (IPv4, hostname, MAC on; 0-3 keywords) per case, 
         "the beginning of that first line, one long line below the documented MAX_LINE_LENGTH); that line is repeated "
         "as the last line of the file; pools cut to 2-5 "
         "originals per class so that the token recurs in the small operations too; oracle of sub-check history plus: "
-        "the filler lines come back unchanged.")
+        "the filler lines come back unchanged. Sub-check ipv6 (session 4): one Cleaner with every obfuscator on, 1-4 "
+        "(thorough 1-7) operations (clean_content list / str, clean_file, provider write) of 1-4 lines with 1-3 IPv6 "
+        "addresses drawn by index from a pool of 2-5 (full form of 8 groups, compressed form a:b::c, one letter case, "
+        "4 in 10 a relative of an earlier member with one more hex digit at either end - 'fe80::1' / 'fe80::12'), "
+        "delimiters and filler without hex digits, ':' or '.', optional prefix length / port; after every step "
+        "consistency and the report sentences (mapping(), facts file, finally the CSV file); non-trivial: an address "
+        "recurs and >= 2 addresses were replaced.")
 ASSUMPTIONS = [
     "PYTHONHASHSEED is pinned by the runner; in sub-check history tokens of different classes never overlap "
     "textually, so the order in which the obfuscators run cannot matter there; sub-check compete makes keywords "
@@ -121,6 +127,9 @@ ASSUMPTIONS = [
     "file and the <archive>-*.csv files as they stand on disk once the run has written them; a facts file that is not "
     "a JSON document pairs nothing with anything and is reported; nothing is demanded across runs (whether two runs "
     "give an original the same substitute is not stated)",
+    "ipv6: consistency and the report sentences are demanded for IPv6 addresses (the statement's 'IP address'), "
+    "injectivity is not (the statement names IPv4 addresses and host names); each letter-case spelling of an address is "
+    "an original of its own (as for MAC addresses)",
     "bigfile: filler lines (ASCII over the filler alphabet, 256 characters, no token in them) are not touched by any "
     "obfuscator, as the filler inside a line is not (same read-back assumption as the per-line template)",
 ]
@@ -138,7 +147,12 @@ EXCLUDED = [
     "obfuscators are C10's subject)",
     "width mode on lines that are not table rows (it deletes up to 7 characters behind the first blank after an "
     "address, whatever they are: not C09's subject) - a name ending in netstat_-neopa always gets rows; an address "
-    "at the very end of a row without gap (IndexError in the width path); IPv6 (switched off as in DESIGN G)",
+    "at the very end of a row without gap (IndexError in the width path); IPv6 is switched off in the sub-checks "
+    "built on the shared token template (DESIGN G) and has its own sub-check ipv6",
+    "ipv6: addresses in forms the obfuscator's expression does not take as one address (leading '::', embedded IPv4, "
+    "zone index glued on, 5-digit groups), all-zero addresses, delimiters that carry a hex digit, ':' or '.', and an "
+    "address that equals the substitute issued for another pool member (left alone on purpose by the 'avoid nested "
+    "obfuscating' rule, as a MAC equal to an issued substitute) - counted under excluded:address-equals-a-substitute",
     "KNOWN FINDING C09-width-chained-replace (found in round 5): under a file name ending in netstat_-neopa "
     "IPv4.parse_line(width=True) still substitutes by chained line.replace, longest address first: a row on which "
     "an original is textually part of the substitute written for an address handled before it (site uses "
@@ -1319,6 +1333,193 @@ def strat_sysname(tier):
         "display_name": st.one_of(lab.map(lambda l: "dn-%s.inventory.test" % l), lab.map(lambda l: "shown-" + l))})
 
 
+# ---- sub-check ipv6: the consistency and report sentences for IPv6 addresses ---------------------------------------
+# An address is a full form (8 groups of 1-4 hex digits) or a compressed form (1-3 groups, '::', 1-3 groups), in one
+# letter case, optionally followed by a prefix length.  Delimiters carry no hex digit, ':' or '.', so an occurrence
+# is exactly the text between its unchanged neighbours.  Pool members are built as *families* (a member is often
+# another member with one more hex digit at either end - 'fe80::1' / 'fe80::12', the gateway and a host of one link),
+# because that is what substitution by text replacement can get wrong.
+V6_LD = ["", " ", "[", "(", "=", ",", "'", '"', "<", "via ", "inet6 ", "\t"]
+V6_RD = ["", " ", "]", ")", ",", "'", '"', ">", "]:443", "/64", "/128", "/64 ", "\t", "%"]
+V6_FILL = [" ", "  ", " GHK ", " dev KLM ", " ;; ", " (MN) ", " => ", " J|K ", ", ", " HOP=", " metric "]
+_V6_OK = re.compile(r"\A[0-9a-fA-F:]+\Z")
+
+
+def _v6_ref_subst(addr):
+    """what the IPv6 obfuscator is documented to issue (module doc: every group is replaced by the leading hex digits of
+    its SHA-1, leading zeros kept) - used ONLY to leave out of the pool an address that equals the substitute of
+    another pool member (such an address is deliberately left alone by the 'avoid nested obfuscating' rule, like a
+    MAC equal to an issued substitute)"""
+    import hashlib
+    out = []
+    for g in addr.split(":"):
+        n = g.lstrip("0").lower()
+        out.append("0" * (len(g) - len(n)) + (hashlib.sha1(n.encode()).hexdigest()[:len(n)] if n else ""))
+    return ":".join(out)
+
+
+def check_ipv6(case):
+    from types import SimpleNamespace
+    from insights.cleaner import Cleaner
+    pool, labels = [], []
+    for a in case["pool"]:
+        if not _V6_OK.match(a) or a in pool:
+            raise ValueError("bad case: address %r" % a)
+        pool.append(a)
+    subst = dict((a, _v6_ref_subst(a)) for a in pool)
+    banned = set(a for a in pool if any(a.lower() == subst[b].lower() for b in pool))
+    if banned:
+        labels.append("excluded:address-equals-a-substitute")
+    tmp = tempfile.mkdtemp(prefix="vp-c09-")
+    try:
+        cfg = SimpleNamespace(obfuscate=True, obfuscate_hostname=True, obfuscate_ipv6=True, obfuscate_mac=True,
+                              display_name=None, rhsm_facts_file=os.path.join(tmp, "facts"))
+        cl = Cleaner(cfg, {}, case["fqdn"])
+        shown = {}          # original -> (replacement, step, line) first seen
+        occurred = set()
+        family_line = recur = False
+        for step, op in enumerate(case["ops"]):
+            texts, templates, toks_of = [], [], []
+            for ln, line in enumerate(op["lines"]):
+                text, rx, toks = "zq%dq%d " % (step, ln), re.escape("zq%dq%d " % (step, ln)), []
+                for ti, (ld, idx, rd, fill) in enumerate(line):
+                    a = pool[idx % len(pool)]
+                    if a in banned:
+                        continue
+                    if toks:
+                        text += V6_FILL[fill % len(V6_FILL)]
+                        rx += re.escape(V6_FILL[fill % len(V6_FILL)])
+                    l_, r_ = V6_LD[ld % len(V6_LD)], V6_RD[rd % len(V6_RD)]
+                    text += l_ + a + r_
+                    rx += re.escape(l_) + r"([0-9a-fA-F:]*?)" + re.escape(r_)
+                    toks.append(a)
+                text += " zq"
+                rx += re.escape(" zq")
+                texts.append(text)
+                templates.append(re.compile(r"\A" + rx + r"\Z"))
+                toks_of.append(toks)
+                if any(x != y and (x in y) for x in toks for y in toks):
+                    family_line = True
+            rel = "insights_commands/ip_-6_route_show_table_all" if step % 2 else "etc/sysconfig/network-scripts/ifcfg-eth%d" % step
+            out = _run_op(cl, tmp, op["via"], rel, texts if op["via"] != "str" else texts[:1], [], step)
+            if op["via"] == "str":
+                templates, toks_of, texts = templates[:1], toks_of[:1], texts[:1]
+            if len(out) != len(texts):
+                raise Violation("ipv6: cleaning %d lines without anything to drop gave %d lines" % (len(texts), len(out)),
+                                step=step, input=texts, output=out)
+            for text, got, rx, toks in zip(texts, out, templates, toks_of):
+                m = rx.match(got)
+                if m is None:
+                    raise Violation("ipv6: an output line is not its input line with the addresses replaced (text around "
+                                    "an address changed, or an address was replaced by something that is no address)",
+                                    step=step, input=text, output=got)
+                for a, rep in zip(toks, m.groups()):
+                    occurred.add(a)
+                    if a in shown:
+                        recur = True
+                        if shown[a][0] != rep:
+                            raise Violation("consistency: the IPv6 address %r is shown as %r here and as %r earlier in the "
+                                            "same run" % (a, rep, shown[a][0]), step=step, input=text, output=got,
+                                            earlier_step=shown[a][1], earlier_input=shown[a][2], earlier_output=shown[a][3])
+                    else:
+                        shown[a] = (rep, step, text, got)
+            # the mapping produced for the user, after every step
+            listed = cl.obfuscate["ipv6"].mapping()
+            cl.generate_rhsm_facts()
+            with open(cfg.rhsm_facts_file) as fh:
+                in_facts = json.loads(json.load(fh)["insights_client.obfuscated_ipv6"])
+            key = lambda e: (e["original"], e["obfuscated"])
+            if sorted(map(key, listed)) != sorted(map(key, in_facts)):
+                raise Violation("report: facts file and ipv6.mapping() differ", step=step, mapping=listed, facts=in_facts)
+            pairs = {}
+            for e in listed:
+                if e["original"] in pairs and pairs[e["original"]] != e["obfuscated"]:
+                    raise Violation("report: the IPv6 mapping lists %r twice with different substitutes" % e["original"],
+                                    mapping=listed)
+                pairs[e["original"]] = e["obfuscated"]
+            for a, (rep, st_, text, got) in sorted(shown.items()):
+                if rep != a and pairs.get(a) != rep:
+                    raise Violation("report: the IPv6 address %r was replaced by %r in the output, the mapping lists %r for "
+                                    "it" % (a, rep, pairs.get(a)), step=st_, input=text, output=got, mapping=listed)
+            for o in pairs:
+                if o not in occurred:
+                    raise Violation("report: the IPv6 mapping lists the original %r, which occurred nowhere in the content "
+                                    "cleaned so far" % o, occurred=sorted(occurred), mapping=listed)
+        # CSV report, read back from the file
+        cl.report_dir = tmp
+        cl.generate_report("c09v6")
+        with open(os.path.join(tmp, "c09v6-ipv6.csv")) as fh:
+            rows = [ln.rstrip("\n").split(",") for ln in fh][1:]
+        want = sorted([e["obfuscated"], e["original"]] for e in cl.obfuscate["ipv6"].mapping())
+        if sorted(rows) != want:
+            raise Violation("report: IPv6 CSV report and mapping() differ", csv=rows, mapping=want)
+        replaced = sum(1 for a, v in shown.items() if v[0] != a)
+        labels += ["addresses=%d" % min(len(shown), 6), "replaced" if replaced else "nothing-replaced"]
+        if family_line:
+            labels.append("line-with-one-address-inside-another")
+        if recur:
+            labels.append("recurring-address")
+        labels += sorted(set("via=" + op["via"] for op in case["ops"]))
+        if any(":" + ":" in a for a in shown):
+            labels.append("compressed-form")
+        if any(a != a.lower() for a in shown):
+            labels.append("upper-case")
+        return {"nontrivial": recur and replaced >= 2, "labels": labels,
+                "key": [sorted(shown), [[len(l) for l in op["lines"]] for op in case["ops"]]]}
+    finally:
+        shutil.rmtree(tmp, ignore_errors=True)
+
+
+@st.composite
+def _v6_pool(draw):
+    hexd = "0123456789abcdef"
+    grp = st.one_of(st.text(hexd, min_size=1, max_size=4), st.sampled_from(["0", "1", "fe80", "2001", "db8", "ff", "a", "12"]))
+    pool = []
+    for _ in range(draw(st.integers(2, 5))):
+        kind = draw(st.integers(0, 9))
+        if pool and kind < 4:
+            # a relative of an earlier member: one more hex digit at the end or at the front (where there is room)
+            base = pool[draw(st.integers(0, len(pool) - 1))]
+            g = base.split(":")
+            d = draw(st.sampled_from(hexd))
+            if draw(st.booleans()) and len(g[-1]) < 4 and g[-1]:
+                g[-1] = g[-1] + d
+            elif len(g[0]) < 4:
+                g[0] = (d if d != "0" else "a") + g[0]
+            elif len(g[-1]) < 4 and g[-1]:
+                g[-1] = g[-1] + d
+            a = ":".join(g)
+        elif kind < 7:
+            a = ":".join(draw(st.lists(grp, min_size=8, max_size=8)))
+        else:
+            head = draw(st.lists(grp, min_size=1, max_size=3))
+            tail = draw(st.lists(grp, min_size=1, max_size=3))
+            a = ":".join(head) + "::" + ":".join(tail)
+        if draw(st.integers(0, 7)) == 0:
+            a = a.upper()
+        if a not in pool and not re.fullmatch(r"[0:]*", a):
+            pool.append(a)
+    for a in ("fe80::1", "2001:db8:0:1:2:3:4:5"):
+        if len(pool) < 2 and a not in pool:
+            pool.append(a)
+    return pool
+
+
+@st.composite
+def _v6_case(draw, max_ops):
+    pool = draw(_v6_pool())
+    tok = st.tuples(st.integers(0, len(V6_LD) - 1), st.integers(0, 7), st.integers(0, len(V6_RD) - 1),
+                    st.integers(0, len(V6_FILL) - 1)).map(list)
+    line = st.lists(tok, min_size=1, max_size=3)
+    op = st.fixed_dictionaries({"via": st.sampled_from(["list", "list", "file", "str", "provider"]),
+                                "lines": st.lists(line, min_size=1, max_size=4)})
+    return {"fqdn": "web01.corp.acme.org", "pool": pool, "ops": draw(st.lists(op, min_size=1, max_size=max_ops))}
+
+
+def strat_ipv6(tier):
+    return _v6_case(4 if tier == "quick" else 7)
+
+
 SUBS = [
     Sub("sysname", check_sysname, strategy=strat_sysname, quick=100, thorough=1000, workers_quick=2, workers_thorough=4),
     Sub("history", check_history, strategy=strat_history, quick=400, thorough=3500, workers_quick=4,
@@ -1331,6 +1532,8 @@ SUBS = [
         workers_thorough=16, budget_quick=5, budget_thorough=60),
     Sub("bigfile", check_history, strategy=strat_bigfile, quick=12, thorough=150, workers_quick=4,
         workers_thorough=16, budget_quick=6, budget_thorough=60),
+    Sub("ipv6", check_ipv6, strategy=strat_ipv6, quick=120, thorough=2500, workers_quick=4,
+        workers_thorough=16, budget_quick=6, budget_thorough=90),
 ]
 
 
@@ -1349,6 +1552,12 @@ REGRESSIONS = [
                                                _ln("", ["host", 3, 0, 0, ""]), _ln("", ["host", 2, 0, 0, ""])]}]}),
     # F(2): an original IPv4 that equals an already issued substitute, next to it on a line
     # a MAC that equals another MAC's substitute, next to it on a line (same chained-replace defect)
+    Reg("ipv6-address-inside-another-on-one-line", "ipv6", {"fqdn": "web01.corp.acme.org", "pool": ["fe80::1", "fe80::12"], "ops": [
+        {"via": "list", "lines": [[[9, 0, 1, 0], [1, 1, 1, 3]], [[1, 1, 1, 0]]]}]}),     # fixed by ff56f4d
+    Reg("ipv6-full-form-family-two-specs", "ipv6", {"fqdn": "web01.corp.acme.org",
+        "pool": ["0:0:0:0:0:0:0:1", "A0:0:0:0:0:0:0:1", "2001:db8:0:1:2:3:4:5", "2001:db8:0:1:2:3:4:56"], "ops": [
+        {"via": "list", "lines": [[[0, 0, 0, 0], [0, 1, 0, 0]]]}, {"via": "file", "lines": [[[1, 3, 9, 0]], [[2, 2, 2, 1], [1, 3, 1, 2]]]},
+        {"via": "provider", "lines": [[[1, 1, 1, 0]], [[1, 3, 1, 0]]]}]}),
     Reg("mac-equals-issued-substitute", "history", {"fqdn": "web01.corp.acme.org", "pools": dict(
         _P1, mac=["00:00:00:00:00:01", _mac_subst("00:00:00:00:00:01")]), "ops": [
         {"op": "str", "no_obf": [], "lines": [_ln("", ["mac", 1, 0, 0, ""])]},
